@@ -15,9 +15,11 @@
    [role] is the role of the RECEIVING endpoint.
 
    Not part of this predicate (deliberately, see the report of the work package): field VALUE
-   syntax beyond NUL/LF/CR in regular fields (8.2.1 leading/trailing whitespace), syntax of the
-   values of :path/:scheme/:authority, Host versus :authority (SHOULD), authority of pushes. *)
-From Coq Require Import String.
+   syntax beyond NUL/LF/CR in regular fields (8.2.1 leading/trailing whitespace), octets of
+   pseudo-header VALUES, syntax of the values of :path/:scheme/:authority, Host versus
+   :authority (SHOULD), authority of pushes, the syntax of a content-length that is not accounted
+   against DATA (responses to HEAD, 204/304, promised requests beyond "indicates content"). *)
+From Coq Require Import String Ascii.
 From H2V Require Import Base.Tac Base.Bytes.
 Local Open Scope N_scope.
 
@@ -55,8 +57,8 @@ Definition value_is (s : string) (v : option (list N)) : bool :=
 Definition is_pseudo (f : field) : bool :=
   match fst f with c :: _ => c =? 58 | [] => false end.
 
-Definition request_pseudo : list string := [":method"; ":scheme"; ":authority"; ":path"; ":protocol"].
-Definition response_pseudo : list string := [":status"].
+Definition request_pseudo : list string := [":method"; ":scheme"; ":authority"; ":path"; ":protocol"]%string.
+Definition response_pseudo : list string := [":status"]%string.
 Definition defined_pseudo : list string := request_pseudo ++ response_pseudo.
 
 (* "Endpoints MUST NOT generate pseudo-header fields other than those defined in this document";
@@ -95,7 +97,7 @@ Definition bad_field (f : field) : bool :=
 (* ---------- 8.2.2: connection-specific fields ---------- *)
 
 Definition connection_specific_names : list string :=
-  ["connection"; "keep-alive"; "proxy-connection"; "transfer-encoding"; "upgrade"].
+  ["connection"; "keep-alive"; "proxy-connection"; "transfer-encoding"; "upgrade"]%string.
 Definition connection_specific (f : field) : bool :=
   existsb (fun s => named s f) connection_specific_names.
 
@@ -181,25 +183,15 @@ Definition kind_received_by (r : role) (k : kind) : bool :=
   | _, _ => false
   end.
 
+(* the header section of a message handed over as kind [k] violates section 8 *)
 Definition malformed (r : role) (k : kind) (fs : list field) : bool :=
   negb (kind_received_by r k) || bad_fields fs ||
   match k with
-  | Request => bad_request fs || bad_content_length fs
-  | PushedRequest => bad_pushed_request fs || bad_content_length fs
-  | Response => bad_response fs || status_1xx fs || bad_content_length fs
+  | Request => bad_request fs
+  | PushedRequest => bad_pushed_request fs
+  | Response => bad_response fs || status_1xx fs
   | Informational => bad_response fs || negb (status_1xx fs)
   | Trailers => existsb is_pseudo fs              (* 8.1: "Trailers MUST NOT include pseudo-header fields" *)
-  end.
-
-(* 8.1: an interim response never ends the stream ("a HEADERS frame with the END_STREAM flag set
-   that carries an informational status code is malformed"); the HEADERS frame of a trailer section
-   carries END_STREAM *)
-Definition malformed_block (r : role) (k : kind) (end_stream : bool) (fs : list field) : bool :=
-  malformed r k fs ||
-  match k with
-  | Informational => end_stream
-  | Trailers => negb end_stream
-  | _ => false
   end.
 
 (* ---------- 8.1.1: content-length against the DATA frames ---------- *)
@@ -207,7 +199,29 @@ Definition malformed_block (r : role) (k : kind) (end_stream : bool) (fs : list 
 (* what the head says about content *)
 Inductive head_kind :=
 | HasContent         (* request; response to anything but HEAD with a status other than 204/304 *)
-| NoContent.         (* response to HEAD, 204, 304 (1xx never carries DATA) *)
+| NoContent.         (* response to HEAD, 204, 304 *)
+
+(* the messages whose content-length is accounted against DATA: a content-length that is not a
+   number, or two that differ, can agree with no body *)
+Definition accounted (k : kind) (hk : head_kind) : bool :=
+  match k, hk with
+  | Request, _ => true
+  | Response, HasContent => true
+  | _, _ => false
+  end.
+
+(* the whole block, with its END_STREAM flag.
+   8.1: an interim response never ends the stream ("a HEADERS frame with the END_STREAM flag set
+   that carries an informational status code is malformed"); the HEADERS frame of a trailer section
+   carries END_STREAM *)
+Definition malformed_block (r : role) (k : kind) (hk : head_kind) (end_stream : bool) (fs : list field) : bool :=
+  malformed r k fs ||
+  (accounted k hk && bad_content_length fs) ||
+  match k with
+  | Informational => end_stream
+  | Trailers => negb end_stream
+  | _ => false
+  end.
 
 Definition sumN (l : list N) : N := fold_right N.add 0 l.
 
